@@ -229,6 +229,8 @@ def stage_apply_text(expr, sg, pr, alias=0):
         return m("groupBy", lt(sg[1], pr)) if sg[2] is None else m("groupBy", lt(sg[1], pr), lt(sg[2], pr))
     if k == "join":
         return m("join", vtext(sg[1]), l2t(sg[2], pr), l2t(sg[3], pr))
+    if k == "joinRange":      # the second collection is a one-shot iterator: join must memorize it
+        return m("join", "range(%d, %d)" % (sg[1], sg[2]), l2t(sg[3], pr), l2t(sg[4], pr))
     if k == "splitAt":
         return m("splitAt", str(sg[1]))
     if k == "splitWhere":
@@ -344,6 +346,8 @@ def stage_gal(sg):
         return A("SGroupBy", lam_gal(sg[1]), ol(sg[2]))
     if k == "join":
         return A("SJoin", gvals(sg[1]), l2(sg[2]), l2(sg[3]))
+    if k == "joinRange":
+        return A("SJoin", gvals(tuple(range(sg[1], sg[2]))), l2(sg[3]), l2(sg[4]))
     if k == "plus":
         return A("SPlus", gvals(sg[1]))
     if k == "aggregate":
@@ -411,7 +415,7 @@ STAGE_NAMES = {
     "accumulate": ["accumulate"], "insert": ["insert"], "insertMany": ["insertMany"], "delete": ["delete"],
     "replace": ["replace"], "replaceMany": ["replaceMany"], "slice": ["slice"], "memorize": ["memorize"],
     "reverse": ["reverse"], "orderBy": ["orderBy", "orderByDescending"], "thenBy": ["thenBy", "thenByDescending"],
-    "groupBy": ["groupBy"], "join": ["join"], "splitAt": ["splitAt"], "splitWhere": ["splitWhere"],
+    "groupBy": ["groupBy"], "join": ["join"], "joinRange": ["join", "range"], "splitAt": ["splitAt"], "splitWhere": ["splitWhere"],
     "sliceWhere": ["sliceWhere"], "toList": ["toList"], "toSet": ["toSet"], "cycle": ["cycle"],
     "plus": ["#operator_+"], "aggregate": ["aggregate", "reduce"], "sum": ["sum"], "min": ["min"], "max": ["max"],
     "first": ["first"], "last": ["last"], "single": ["single"], "any": ["any"], "all": ["all"],
@@ -603,7 +607,15 @@ def _alarm(signum, frame):
     raise Watchdog()
 
 
-def evaluate(text, data=None, timeout=5):
+def evaluate_fresh(text, mkdata, timeout=20):
+    """evaluate with freshly built data; a watchdog hit is only believed when it repeats (machine load)"""
+    o = evaluate(text, mkdata(), timeout)
+    if o[0] == "err" and o[1] == "EOther" and o[2].startswith("watchdog"):
+        o = evaluate(text, mkdata(), 3 * timeout)
+    return o
+
+
+def evaluate(text, data=None, timeout=20):
     """-> ('val'|'set'|'dict', ...) or ('err', class, detail)"""
     old = signal.signal(signal.SIGALRM, _alarm)
     signal.alarm(timeout)
@@ -806,6 +818,10 @@ def gen_stage(rng, kind, shape, n, allow_terminal=True, streaming_only=False, ce
     if k == "groupBy":
         return ("groupBy", gen_lam(rng, shape, "any"), rng.choice([None, None, gen_lam(rng, shape, "any")])), it, "other", n
     if k == "join":
+        if shape == "int" and rng.random() < 0.4:
+            a = rng.randrange(-2, 4)
+            return ("joinRange", a, a + rng.randrange(0, 5), (rng.choice(["gt2", "eq2"]),),
+                    (rng.choice(["add2", "pair2", "fst", "snd"]),)), it, "other", n
         if shape == "int":
             return ("join", tuple(gen_values(rng, "int", rng.randrange(0, 4))), (rng.choice(["gt2", "eq2"]),),
                     (rng.choice(["add2", "pair2", "fst", "snd"]),)), it, "other", n
@@ -1000,9 +1016,9 @@ def gen_pipeline(rng, maxlen=4):
 
 
 def run_pipeline(src, stages, literal=False, aliases=None, probe=False):
-    text0, data = source_setup(src, literal)
+    text0, _ = source_setup(src, literal)
     text = pipeline_text(text0, stages, probe=probe, aliases=aliases)
-    return text, evaluate(text, data)
+    return text, evaluate_fresh(text, lambda: source_setup(src, literal)[1])
 
 
 def case_term(src, stages, obs):
